@@ -10,7 +10,7 @@
    every order [ord] in which the leaves draw their number from the atomic
    counter (any injection of the leaves into [0, part_count)). *)
 From Coq Require Import Permutation QArith Floats.SpecFloat.
-From Coupe Require Import Lib.Prelude Lib.SFloat Model.MultiJagged Proofs.MultiJaggedProofs Proofs.MultiJaggedExact Proofs.MultiJaggedSim Proofs.MultiJaggedTotal Gen.MjGen.
+From Coupe Require Import Lib.Prelude Lib.SFloat Model.MultiJagged Proofs.MultiJaggedProofs Proofs.MultiJaggedExact Proofs.MultiJaggedSim Proofs.MultiJaggedTotal Proofs.MultiJaggedSep Gen.MjGen Gen.MjSortGen Gen.MjRecGen.
 Open Scope N_scope.
 
 (* the literals of multi_jagged.rs the model is written against, re-read from the source on every run *)
@@ -151,6 +151,33 @@ Theorem C11_leaf_order_irrelevant :
     (nth_opt p1 x = nth_opt p1 y <-> nth_opt p2 x = nth_opt p2 y).
 Proof. exact mj_ord_indep. Qed.
 Print Assumptions C11_leaf_order_irrelevant.
+
+(* the sort step: the translator checks that recursive_bisection::axis_sort — the
+   only sort MultiJagged relies on — is exactly one par_sort_unstable_by over the
+   permutation ordered by points[i][current_coord] (no fast path, no other key):
+   what the sort oracle [sorter_ok] stands for.  Fails closed (Gen/MjSortGen.v). *)
+Theorem C11_axis_sort_fingerprint : mj_axis_sort_is_one_unstable_sort_by_coordinate = true.
+Proof. exact eq_refl. Qed.
+
+(* the recursion: multi_jagged_with_scheme, multi_jagged_recurse (in particular the
+   leaf: one fetch_add, then ONE store per index of the WHOLE permutation slice via
+   `permutation.par_iter().for_each` — no chunking, no fixed buffers) and
+   split_at_mut_many are, comments and white space aside, the text the model was
+   written against.  Fails closed (Gen/MjRecGen.v). *)
+Theorem C11_recursion_fingerprint :
+  mj_recurse_is_fingerprinted_text = true /\ mj_split_at_mut_many_is_fingerprinted_text = true /\
+  mj_with_scheme_is_fingerprinted_text = true.
+Proof. repeat split; exact eq_refl. Qed.
+
+(* A checker for the jagged clause whose `false` IS a failing input: if the ids
+   form a JaggedTree of the scheme's shape — for ANY assignment of parts to
+   leaves — then every two parts are separated along one of the axes of the
+   scheme's cutting levels, and check_separated answers true. *)
+Theorem C11_check_separated_complete : forall B D cxlt idf (sch : scheme B) els n k,
+  JaggedTree B D cxlt idf sch 0 els -> (forall i, (i < n)%nat -> In i els) ->
+  check_separated B D cxlt idf sch n k = true.
+Proof. exact check_separated_complete. Qed.
+Print Assumptions C11_check_separated_complete.
 
 (* ---- which panic sites are reachable, for EVERY arithmetic (for C01) ---- *)
 
